@@ -140,4 +140,205 @@ theorem checkIsOr_iff (sets : List (List String)) (nonTau removed : List PTree) 
         intro y hy
         exact h2 y (mem_interS.mp hy).1 (mem_interS.mp hy).2
 
+/-! ### the miner's rendering over plain events, in the judge's gate semantics -/
+
+def optLeaf (r : String) : PTree := .node .xor [.tau, .leaf r]
+
+theorem classify_raw (N : List String) : ∀ (R : List String),
+    classify (N.map PTree.leaf ++ R.map optLeaf) = (R.map optLeaf, N.map PTree.leaf) := by
+  induction N with
+  | nil =>
+    intro R
+    induction R with
+    | nil => rfl
+    | cons r rs ih =>
+      simp only [List.map_nil, List.nil_append, List.map_cons] at ih ⊢
+      simp only [classify, ih, optLeaf, List.any_cons, PTree.isTau, Bool.true_or, if_true]
+  | cons n ns ih =>
+    intro R
+    simp only [List.map_cons, List.cons_append, classify, ih R]
+
+theorem grandchildren_opt : ∀ (R : List String), (R.map optLeaf).flatMap grandchildrenOf = R.map PTree.leaf
+  | [] => rfl
+  | r :: rs => by
+    simp only [List.map_cons, List.flatMap_cons, grandchildren_opt rs]
+    simp [optLeaf, grandchildrenOf, PTree.isTau]
+
+theorem labelsL_leaves : ∀ (l : List String), PTree.labelsL (l.map PTree.leaf) = l
+  | [] => rfl
+  | a :: as => by simp [PTree.labelsL, PTree.labels, labelsL_leaves as]
+
+theorem toGateL_leaves : ∀ (l : List String), PTree.toGateL (l.map PTree.leaf) = some (l.map Gate.leaf)
+  | [] => rfl
+  | a :: as => by simp [PTree.toGateL, PTree.toGate, toGateL_leaves as]
+
+theorem toGateL_append (a b : List PTree) (ga gb : List Gate) (ha : PTree.toGateL a = some ga)
+    (hb : PTree.toGateL b = some gb) : PTree.toGateL (a ++ b) = some (ga ++ gb) := by
+  induction a generalizing ga with
+  | nil => simp [PTree.toGateL] at ha; subst ha; simpa using hb
+  | cons x xs ih =>
+    simp only [PTree.toGateL] at ha
+    cases hx : x.toGate with
+    | none => simp [hx] at ha
+    | some g =>
+      cases hxs : PTree.toGateL xs with
+      | none => simp [hx, hxs] at ha
+      | some gs =>
+        simp only [hx, hxs, Option.some.injEq] at ha
+        subst ha
+        simp [PTree.toGateL, hx, ih gs hxs]
+
+/-- what the code makes of the miner's node `+(N…, X(tau, r)…)` over plain events -/
+theorem inferOrNode_rawLeaves (F : List (List String)) (N R : List String) (hR : R ≠ []) :
+    inferOrNode F (rawLeaves N R) =
+      if checkIsOr F (N.map PTree.leaf) (R.map PTree.leaf) then
+        (if N.length > 1 then .node .or (R.map PTree.leaf ++ [.node .and (N.map PTree.leaf)])
+         else .node .or (R.map PTree.leaf ++ N.map PTree.leaf))
+      else .node .and (N.map PTree.leaf ++ [.node .or (R.map PTree.leaf)]) := by
+  have hc : classify (N.map PTree.leaf ++ R.map (fun r => PTree.node .xor [.tau, .leaf r])) =
+      (R.map optLeaf, N.map PTree.leaf) := classify_raw N R
+  have hne : (R.map optLeaf).isEmpty = false := by
+    cases R with
+    | nil => exact absurd rfl hR
+    | cons r rs => rfl
+  simp only [rawLeaves, inferOrNode, hc, hne, Bool.false_eq_true, if_false, grandchildren_opt, List.length_map]
+
+theorem outcomesL_leaves_snoc (g : Gate) : ∀ (M : List String),
+    outcomesL (M.map Gate.leaf ++ [g]) = (M.map fun a => [[a]]) ++ [outcomes g]
+  | [] => by simp [outcomesL]
+  | a :: as => by
+    simp only [List.map_cons, List.cons_append, outcomesL, outcomes, outcomesL_leaves_snoc g as]
+
+/-- an AND over plain events and one OR over plain events admits "all of `N` and a non-empty selection of `R`" -/
+theorem and_or_admits (N R T : List String) (s : List String) (hT : T.Sublist R) (hTne : T ≠ [])
+    (hsame : SameSet s (N ++ T)) :
+    admits (.node .and (N.map Gate.leaf ++ [.node .or (R.map Gate.leaf)])) s = true := by
+  -- the OR child produces the union of the singletons of T
+  have hsubT : (T.map fun r => [[r]]).Sublist (R.map fun r => [[r]]) := List.Sublist.map _ hT
+  have hmemT := sublist_mem_nonEmptySublists _ _ hsubT (by simpa using hTne)
+  obtain ⟨uT, huT, hmT⟩ := productAll_singletons (T.map fun r => [r])
+  have huT' : productAll (T.map fun r => [[r]]) = [uT] := by
+    have e : (T.map fun r => [[r]]) = ((T.map fun r => [r]).map fun o => [o]) := by simp [List.map_map]
+    rw [e]; exact huT
+  have horOut : uT ∈ outcomes (.node .or (R.map Gate.leaf)) := by
+    simp only [outcomes, List.mem_flatMap]
+    have e : outcomesL (R.map Gate.leaf) = R.map fun r => [[r]] := outcomesL_leaves R
+    rw [e]
+    exact ⟨_, hmemT, by rw [huT']; exact List.mem_singleton.mpr rfl⟩
+  -- the AND: singletons of N, then the OR's outcomes
+  have hprod : ∀ (M : List String), ∃ u, u ∈ productAll ((M.map fun a => [[a]]) ++ [outcomes (.node .or (R.map Gate.leaf))]) ∧
+      ∀ x, x ∈ u ↔ x ∈ M ∨ x ∈ uT := by
+    intro M
+    induction M with
+    | nil =>
+      refine ⟨union uT [], ?_, ?_⟩
+      · simp only [List.map_nil, List.nil_append, productAll, List.mem_flatMap, List.mem_map, List.mem_singleton]
+        exact ⟨uT, horOut, [], rfl, rfl⟩
+      · intro x; simp [mem_union]
+    | cons a as ih =>
+      obtain ⟨u, hu, hm⟩ := ih
+      refine ⟨union [a] u, ?_, ?_⟩
+      · simp only [List.map_cons, List.cons_append, productAll, List.mem_flatMap, List.mem_map, List.mem_singleton]
+        exact ⟨[a], rfl, u, hu, rfl⟩
+      · intro x
+        rw [mem_union, hm]
+        simp [or_assoc]
+  obtain ⟨u, hu, hm⟩ := hprod N
+  have hout : u ∈ outcomes (.node .and (N.map Gate.leaf ++ [.node .or (R.map Gate.leaf)])) := by
+    have e := outcomesL_leaves_snoc (.node .or (R.map Gate.leaf)) N
+    rw [outcomes, e]
+    exact hu
+  have hnorm : norm u = norm s := by
+    apply norm_ext
+    intro x
+    rw [hm, hsame x, List.mem_append, hmT]
+    constructor
+    · rintro (h | ⟨o, ho, hx⟩)
+      · exact Or.inl h
+      · obtain ⟨r, hr, rfl⟩ := List.mem_map.mp ho
+        simp only [List.mem_singleton] at hx
+        exact Or.inr (hx ▸ hr)
+    · rintro (h | h)
+      · exact Or.inl h
+      · exact Or.inr ⟨[x], List.mem_map.mpr ⟨x, h, rfl⟩, List.mem_singleton.mpr rfl⟩
+  unfold admits family
+  have : norm s ∈ dedupF ((outcomes (.node .and (N.map Gate.leaf ++ [.node .or (R.map Gate.leaf)]))).map norm) := by
+    rw [mem_dedupF, ← hnorm]
+    exact List.mem_map.mpr ⟨u, hout, rfl⟩
+  simpa using this
+
+theorem map_partGate_singletons : ∀ (l : List String), (l.map fun r => [r]).map partGate = l.map Gate.leaf
+  | [] => rfl
+  | a :: as => by simp [partGate, map_partGate_singletons as]
+
+theorem partGate_many (N : List String) (h : N.length > 1) : partGate N = .node .and (N.map Gate.leaf) := by
+  match N, h with
+  | _ :: _ :: _, _ => rfl
+
+/-- **the OR inference on plain events, in the judge's semantics**: for the miner's node `+(N…, X(tau, r)…)` over
+distinct plain events and any observed family, the node `infer_or_gate_from_node` puts in its place is a gate tree
+that admits every non-empty observed set of the form "all of `N` and some of `R`" -/
+theorem infer_or_leaves_sound (F : List (List String)) (N R : List String) (hR : R ≠ [])
+    (hdis : ∀ x ∈ N, x ∉ R) (s : List String) (hs : s ∈ F) (T : List String) (hT : T.Sublist R)
+    (hsame : SameSet s (N ++ T)) (hne : s ≠ []) :
+    ∃ g, (inferOrNode F (rawLeaves N R)).toGate = some g ∧ admits g s = true := by
+  rw [inferOrNode_rawLeaves F N R hR]
+  by_cases hck : checkIsOr F (N.map PTree.leaf) (R.map PTree.leaf) = true
+  · simp only [hck, if_true]
+    by_cases hlen : N.length > 1
+    · simp only [hlen, if_true]
+      refine ⟨rebuilt ((R.map fun r => [r]) ++ [N]), ?_, ?_⟩
+      · have h1 := toGateL_leaves R
+        have h2 : PTree.toGateL [PTree.node .and (N.map PTree.leaf)] = some [Gate.node .and (N.map Gate.leaf)] := by
+          simp [PTree.toGateL, PTree.toGate, toGateL_leaves]
+        simp only [PTree.toGate, toGateL_append _ _ _ _ h1 h2, Option.map_some, rebuilt, List.map_append,
+          map_partGate_singletons, List.map_cons, List.map_nil, partGate_many N hlen]
+      · apply rebuilt_admits _ s hne
+        intro x hx
+        rcases List.mem_append.mp ((hsame x).mp hx) with h | h
+        · exact ⟨N, by simp, fun y hy => (hsame y).mpr (List.mem_append_left _ hy), h⟩
+        · refine ⟨[x], ?_, ?_, List.mem_singleton.mpr rfl⟩
+          · exact List.mem_append_left _ (List.mem_map.mpr ⟨x, hT.subset h, rfl⟩)
+          · intro y hy
+            simp only [List.mem_singleton] at hy
+            exact hy ▸ hx
+    · simp only [hlen, if_false]
+      refine ⟨rebuilt ((R ++ N).map fun r => [r]), ?_, ?_⟩
+      · have h1 := toGateL_leaves R
+        have h2 := toGateL_leaves N
+        simp only [PTree.toGate, toGateL_append _ _ _ _ h1 h2, Option.map_some, rebuilt, map_partGate_singletons,
+          List.map_append]
+      · apply rebuilt_admits _ s hne
+        intro x hx
+        refine ⟨[x], ?_, ?_, List.mem_singleton.mpr rfl⟩
+        · apply List.mem_map.mpr
+          refine ⟨x, ?_, rfl⟩
+          rcases List.mem_append.mp ((hsame x).mp hx) with h | h
+          · exact List.mem_append_right _ h
+          · exact List.mem_append_left _ (hT.subset h)
+        · intro y hy
+          simp only [List.mem_singleton] at hy
+          exact hy ▸ hx
+  · simp only [hck, Bool.false_eq_true, if_false]
+    have hnot := mt (checkIsOr_iff F (N.map PTree.leaf) (R.map PTree.leaf)).mpr hck
+    rw [labelsL_leaves, labelsL_leaves] at hnot
+    have hNne : N ≠ [] := by
+      intro e
+      exact hnot (Or.inl (by simp [e]))
+    have hTne : T ≠ [] := by
+      intro hTe
+      subst hTe
+      obtain ⟨n, hn⟩ := List.exists_mem_of_ne_nil N hNne
+      apply hnot
+      right
+      refine ⟨s, hs, ⟨n, hn, (hsame n).mpr (by simp [hn])⟩, ?_⟩
+      intro x hxR hxs
+      have : x ∈ N := by simpa using (hsame x).mp hxs
+      exact hdis x this hxR
+    refine ⟨.node .and (N.map Gate.leaf ++ [.node .or (R.map Gate.leaf)]), ?_, and_or_admits N R T s hT hTne hsame⟩
+    have h1 := toGateL_leaves N
+    have h2 : PTree.toGateL [PTree.node .or (R.map PTree.leaf)] = some [Gate.node .or (R.map Gate.leaf)] := by
+      simp [PTree.toGateL, PTree.toGate, toGateL_leaves]
+    simp only [PTree.toGate, toGateL_append _ _ _ _ h1 h2, Option.map_some]
+
 end O2P.Gate
